@@ -26,7 +26,8 @@ RULE = ('seeded random histories (length 3..12) over the operation alphabet, on 
 ASSUMPTIONS = ['condition strings contain no whitespace (the documented examples have none)']
 
 OPS = {'>': np.greater, '>=': np.greater_equal, '<': np.less, '<=': np.less_equal, '==': np.equal, '!=': np.not_equal}
-FUNCS = {'max': np.max, 'mean': np.mean, 'sum': np.sum, 'len': len, 'first': lambda v: v[0], 'last': lambda v: v[-1]}
+FUNCS = {'max': np.max, 'mean': np.mean, 'sum': np.sum, 'len': len, 'first': lambda v: v[0], 'last': lambda v: v[-1],
+         'builtin_max': max, 'builtin_min': min}      # (Python's own max / min: they differ from numpy's on NaN)
 TIMING = ('chain_start', 'chain_end', 'chain_len_samples', 'chain_len_cycles', 'chain_position')
 
 
@@ -159,6 +160,12 @@ def gen_history(rng, ref):
 
     def fresh(prefix):
         counter[0] += 1
+        if rng.random() < .05 and len(names) > 1:
+            # a name that is a proper prefix of a name stored earlier ('dur' after 'duration', 'm1' after 'm12', ...)
+            longer = gens.pick(rng, [n for n in names if len(n) > 2] or names)
+            cand = longer[:int(rng.integers(1, len(longer)))]
+            if cand not in names and cand not in in_use and cand[0].isalpha() and not any(ch in cand for ch in '=<>!'):
+                return cand
         if rng.random() < .06:
             # the metric store is open: a user metric may be stored under the name of a timing metric
             cand = [n for n in ('duration', 'start_sample', 'stop_sample') if n not in in_use]
@@ -213,6 +220,8 @@ def gen_history(rng, ref):
             name = fresh('m')
             fn = gens.pick(rng, sorted(FUNCS))
             vals = np.round(rng.standard_normal(n), 1) if rng.random() < .5 else rng.standard_normal(n)
+            if rng.random() < .15:
+                vals[rng.integers(0, n, int(rng.integers(1, 4)))] = np.nan       # samples that could not be measured
             mode = 'augmented' if rng.random() < .25 else 'cycle'
             h.append({'op': 'compute', 'name': name, 'func': fn, 'vals': vals, 'mode': mode})
             if mode == 'cycle':
@@ -471,6 +480,14 @@ def run_history(ctx, phase, hist, case):
                 if not np.array_equal(out.reshape(-1), want):
                     V('matching:' + '+'.join(sorted(set(c[1] for c in op['conds']))), '%s [%s]: get_matching_cycles = %s, conditions mean %s'
                       % (where, which, out.astype(int).tolist()[:16], want.astype(int).tolist()[:16]), case)
+                    return False
+            for which, cy in real.items():
+                # the per-condition form: column k is condition k on its own, in the order given
+                sep = np.asarray(cy.get_matching_cycles([cond_str(c) for c in op['conds']], ret_separate=True)).astype(bool)
+                wantsep = np.stack([ref.matching([c]) for c in op['conds']], axis=1)
+                if sep.shape != wantsep.shape or not np.array_equal(sep, wantsep):
+                    V('matching:ret_separate', '%s [%s]: get_matching_cycles(..., ret_separate=True) has shape %s; column k must be condition k '
+                      'alone in the order given (expected shape %s)' % (where, which, sep.shape, wantsep.shape), case)
                     return False
             for c in op['conds']:
                 ctx.count('comparator:' + c[1])
